@@ -12,9 +12,7 @@ TABLE = {}
 
 NOT_APPLICABLE = {
     'C10': 'quantifies over crash points between file-system mutations and fault sequences of whole configure/regenerate runs; a function contract relates one call\'s pre-state to its post-state and has no notion of "killed here" (DESIGN.md section 6)',
-    'C13': 'two-run hyperproperty of the whole pipeline under hash randomisation; set iteration order is not an input of any function under contract (DESIGN.md section 6)',
     'C06': 'relational property across three emitters per builtin (make / ninja / compdb) over ~6 kLOC of duck-typed builtins: a product-program obligation per builtin needs every builtin\'s rule object under the opaque-object mode; the emitter kernels that are under contract (ninja command_build, Makefile.rule / NinjaFile.build, the writers) are claimed under C03/C01/C02 instead; no relational contract was built (DESIGN.md 8.3)',
-    'C18': 'universal statement over all builtins plus the behaviour of the external archive tool; no per-function contract carries it (DESIGN.md section 6)',
 }
 
 NJ_ASSUME = ['specs/ninja.py (ninja lexing of values and paths) is written from the ninja manual; no ninja binary is '
@@ -235,4 +233,30 @@ TABLE['C16'] = {
     'level_text': 'Bounded exploration only (labelled): 36 generated projects built with the real compiler. Nothing is proved for this property.',
     'level_note': 'bounded stand-in only; the contract technique does not apply to an external oracle (DESIGN.md section 6 and 8.3). One genuine defect found and repaired (-Osize).',
     'technique': 'bounded runtime contracts on the real pipeline and compiler (stand-in; no deductive obligations)',
+}
+
+
+TABLE['C13'] = {
+    'modules': ['contracts.determinism'],
+    'level': 'exploration',
+    'explanation': 'a two-run hyperproperty of the whole pipeline (hash seed, environment, invocation directory): no function contract can state it, nothing is proved. The check is a bounded runtime contract on the real driver: one generated project using most builtins is configured for the Make and the Ninja backend under a reference context and four other contexts (hash seeds 1, 77, 4242, 12345; invoked from the parent, the root and the source directory; relative and absolute directory spellings; an unrelated environment variable); primary build files must be byte-identical and auxiliary files equal as sets of entries.',
+    'assumptions': ['build.ninja is written with a stub `ninja` that only answers --version (no ninja binary exists in the sandbox; bfg9000 asks it for nothing else while configuring)'],
+    'trusted_base': [],
+    'not_covered': ['other projects and builtins than the generated one (packages, pkg-config lookups, msbuild)', 'process id and time dependence beyond what five runs show', 'all hash seeds'],
+    'level_text': 'Bounded exploration only (labelled): eight configure pairs. Nothing is proved for this property.',
+    'level_note': 'bounded stand-in only; the contract technique does not apply to a two-run hyperproperty (DESIGN.md section 6 and 8.3).',
+    'technique': 'bounded runtime contracts on the real driver (stand-in; no deductive obligations)',
+}
+
+
+TABLE['C18'] = {
+    'modules': ['contracts.distarchive'],
+    'level': 'exploration',
+    'explanation': 'a universal statement over all builtins plus the behaviour of the external archive tool: no per-function contract carries it, nothing is proved. The check is a bounded runtime contract on the real pipeline: one generated project that creates file objects through find_files (with extra=), header_directory (with a pattern), static_library, executable, header_file, man_page, generic_file, copy_file, build_step and command inputs, a submodule with its own options file, extra_dist and a dist=False source is configured by the tree under test; the dist-gzip, dist-bzip2 and dist-zip targets are run by GNU make with the real doppel; the archive members must be exactly the files the description reads, and the unpacked archive must configure and build the distributed targets.',
+    'assumptions': ['the installed doppel 0.5.0 is the archive tool a user runs'],
+    'trusted_base': [],
+    'not_covered': ['builtins not used by the generated project (packages, pkg-config, generated sources, precompiled headers)', 'files below an extra_dist directory deeper than one level (accepted either way: no influence on the build, not settled by the property text)', 'the ninja backend'],
+    'level_text': 'Bounded exploration only (labelled): one generated project, three archive formats. Nothing is proved for this property.',
+    'level_note': 'bounded stand-in only; the contract technique does not apply (DESIGN.md section 6 and 8.3).',
+    'technique': 'bounded runtime contracts on the real pipeline and archive tool (stand-in; no deductive obligations)',
 }
